@@ -3,24 +3,24 @@ CONSTANTS
   Params = {"P1", "P2"}
   Vals = {"v0", "v1", "v2"}
   NChunks = 2
-  AutoChoices = {{"P1"}}
-  HwChoices = {{"P2"}}
-  NoDefChoices = {{"P1"}}
-  CfgVals = {"v2"}
+  AutoChoices = {{"P1"}, {"P1", "P2"}}
+  HwChoices = {{"P2"}, {"P1", "P2"}}
+  NoDefChoices = {{"P1"}, {"P2"}}
+  CfgVals = {"v1"}
   Faults = {"crash"}
-  Corruptions = {"missing", "notjson", "notdict", "extra", "bad", "drop"}
+  Corruptions = {"wipe", "extra", "bad"}
   Dev = {"BelieveEarly"}
   Depth = 12
   MaxChanges = 2
-  MaxSaves = 0
-  MaxFaults = 0
+  MaxSaves = 1
+  MaxFaults = 1
   MaxStarts = 2
-  MaxCorrupt = 2
-  MaxOther = 0
+  MaxCorrupt = 1
+  MaxOther = 2
   FirstCfgs = {0}
   StartCfgs = {0, 1}
   CfgKinds = {"value", "default"}
-  Vias = {"set"}
+  Vias = {"set", "write", "read"}
 CONSTRAINT Bound
 INVARIANT Emit1
 CHECK_DEADLOCK FALSE
